@@ -1330,7 +1330,7 @@ pub fn run(args: &Args) -> i32 {
          after every accepted write count_rows, the full scan (multiset keyed by id, cell equality) and the ordered scan \
          (sequence) are compared with the model. Non-trivial = >=1 accepted write with rows compared and a table of >=2 \
          fragments or a write of >=2 non-empty batches; distinct by (version, schema, op kinds, fragment count).",
-        (60, 900),
+        (85, 900),
     )
     .with_min_nontrivial(args.tier.pick(50, 500));
     let types = Histo::default();
@@ -1347,7 +1347,7 @@ pub fn run(args: &Args) -> i32 {
         diag: &diag,
     };
     let selftest = selftest_requested(args);
-    let max_cases = if selftest { 200 } else { args.tier.pick(4_000, 120_000) };
+    let max_cases = if selftest { 200 } else { args.tier.pick(1_500, 120_000) };
     let st = std::sync::Mutex::new((0u64, 0u64));
     let single: Option<u64> = args.extra.get("case").and_then(|s| s.parse().ok());
     if let Some(i) = single {
